@@ -158,7 +158,7 @@ PROPS.update({
         "explanation": "partial: Lean proves that the modelled entry points are total functions whose loops run on proved-sufficient fuel (Sqrt precision doubling, integer roots, NumDigits, Reduce) and that a successfully parsed decimal is well-formed; the runtime part (no panic / no hang of the compiled code, every exported entry point) is explored under recover + watchdog on generated well-formed inputs and arbitrary byte strings",
     },
     "C11": {
-        "level": "other",
+        "level": "proof",
         "lean_modules": ["ApdVerif.Props.C11", "ApdVerif.Props.C11Settle", "ApdVerif.Props.C11Sqrt", "ApdVerif.Props.C11SqrtExact", "ApdVerif.Props.C11Cbrt"],
         "streams": [{"stream": "roots", "n": {"quick": 20000, "thorough": 400000}},
                     # the same oracles judge every aliased outcome (d == x, heap-backed operands, junk destinations)
